@@ -113,6 +113,24 @@ def _chains():
             out.append([["new", 0, tc], ["relchurn", 10, k, c, f, 0], ["new", 50, c], a(50), ["new", 51, c], a(51)])
             out.append([["new", 0, tc], ["new", 1, c], a(1), ["drop", 1], ["relchurn", 10, k, c, f, 0],
                         ["relchurn", 30, k, c, f, 0], ["new", 50, c], a(50)])
+    # roles: a relation asserted on a role reaches the role taker (super-property on the role taker); the role dies
+    # while its role taker lives on, is swept (or not), and a new role of another taker gets the recycled node index
+    for sweep in (True, False):
+        for first in ("manage", "head"):
+            for k in (1, 2):
+                ops = [["new", 0, 2], ["new", 1, 2], ["new", 2, 1], ["new", 3, 1]]
+                ops += [["newrole", 10 + i, 0] for i in range(k)]
+                ops += [[first, 10 + i, 2] for i in range(k)]
+                ops += [["drop", 10 + i] for i in range(k)]
+                if first == "head":
+                    ops += [["drop", 2]]  # the Org holds the role through members; the taker holds the Org
+                if sweep:
+                    ops.append(["sweep"])
+                ops += [["newrole", 20 + i, 1] for i in range(k)]
+                ops += [["manage", 20 + i, 3] for i in range(k)] + [["head", 20, 3]]
+                out.append(ops)
+    out.append([["new", 0, 2], ["new", 1, 2], ["new", 2, 1], ["newrole", 3, 0], ["manage", 3, 2], ["set", 8, 1, 2],
+                ["drop", 3], ["sweep"], ["newrole", 4, 1], ["newrole", 5, 0], ["manage", 5, 2], ["manage", 4, 2]])
     for perm in itertools.permutations([(3, 2), (2, 1), (1, 0)]):
         ops = [["new", i, 1] for i in range(4)]
         ops += [["set", 3, a, b] for a, b in perm]
@@ -132,6 +150,7 @@ def generate(rng, tier, n):
             # garbage prefix (everything created in it is dropped), then assertions on new instances
             gp = _sg.Gen(rng, classes=(1, 1, 2, 3))
             prefix = gp.history(rng.randint(3, 10), w_query=0, w_clear=0, w_sweep=0.5, w_churn=rng.choice([0.0, 0.5]),
+                                w_role=rng.choice([0.0, 1.5]),
                                 w_relchurn=rng.choice([0.0, 0.6]))
             for o in list(gp.held):
                 prefix.append(["drop", o])
@@ -139,12 +158,13 @@ def generate(rng, tier, n):
                 prefix.append(["sweep"])
             gs = _sg.Gen(rng, classes=(1, 1, 2, 3), first_label=100)
             suffix = gs.history(rng.randint(3, 10), w_query=0, w_clear=0, w_drop=0.5, w_sweep=0.3,
+                                w_role=rng.choice([0.0, 1.5]),
                                 w_relchurn=rng.choice([0.0, 0.0, 0.8]))
             cases.append(_case(prefix + suffix, ("random", "after-prefix"), "random"))
             cases.append(_case(suffix, ("random", "fresh"), "random"))
         else:
             g = _sg.Gen(rng, classes=(1, 1, 2, 3))
-            ops = g.history(rng.randint(4, 20), w_query=0, w_clear=0.2)
+            ops = g.history(rng.randint(4, 20), w_query=0, w_clear=0.2, w_role=rng.choice([0.0, 2.0]))
             cases.append(_case(ops, ("random", "interleaved"), "random"))
     return cases
 
